@@ -16,6 +16,10 @@ TreeDim(t) == CASE t.t \in {"Point","MultiPoint"} -> 0
 
 Undirected(SS) == SS \cup {<<s[2],s[1]>> : s \in SS}
 
+\* a collection's boundary is the collection of its members' NON-EMPTY boundaries: below a collection node of the
+\* boundary no node is empty; and the boundary of a collection with n members has at most n members
+RECURSIVE NoEmptyChild(_)
+NoEmptyChild(t) == \A i \in 1..Len(t.c) : ~t.c[i].e /\ NoEmptyChild(t.c[i])
 CheckBoundary(e) ==
   LET b == Merge(e.bnd)
       expPts == UNION {LineBoundary(e.g[i]) : i \in 1..Len(e.g)}
@@ -24,6 +28,9 @@ CheckBoundary(e) ==
      ELSE IF PtSet(b) # expPts THEN "boundary-points"
      ELSE IF Undirected(LineSegs(b)) # expSegs THEN "boundary-lines"
      ELSE IF ~e.bbempty THEN "boundary-of-boundary-nonempty"
+     \* (an empty collection is returned as its own boundary, empty members and all: pinned by the repository's tests)
+     ELSE IF Len(e.g) > 0 /\ ~NoEmptyChild(e.btree) THEN "collection-boundary-has-empty-member"
+     ELSE IF e.tree.t = "GeometryCollection" /\ (e.btree.t # "GeometryCollection" \/ Len(e.btree.c) > Len(e.tree.c)) THEN "collection-boundary-structure"
      ELSE "ok"
 
 HighPart(g) == IF Len(g.areas) > 0 THEN [pts |-> <<>>, lines |-> <<>>, areas |-> g.areas]
